@@ -485,8 +485,66 @@ pub fn cmd_comp(a: &Args) {
             let desc = format!("FrameHeader::new(block={bs}, {ca:?}, bps={bps}, rate={rate}, {first:?}) then set_frame_offset({then:?})");
             let (ca2, f2, t2) = (ca.clone(), first.clone(), then.clone());
             o.observe("header", desc, (*bs).min(70000), (*bps).min(1000), 0,
-                json!({"num_hi": num_hi, "num_lo": num_lo, "variable": variable, "relabelled": format!("{first:?}") != format!("{then:?}")}),
+                json!({"num_hi": num_hi, "num_lo": num_lo, "variable": variable, "relabelled": format!("{first:?}") != format!("{then:?}"),
+                       "rate": if *rate <= 655_350 { *rate as i64 } else { -1 }}),
                 || FrameHeader::new(*bs, ca2, *bps, *rate, f2).map(|mut h| { h.set_frame_offset(t2); h }),
+                |b| parser::frame_header::<nom::error::Error<&[u8]>>(true)(b).ok().map(|(_, h)| dbg_and_bytes(&h)));
+        }
+    }
+
+    // ---------------------------------------------------------------- FrameHeader: the block-size and sample-rate code spaces
+    // quick: every value with arithmetic structure the codes care about (multiples of 192 / 576 / 256, powers of two
+    // +-1, everything up to 300, the 8-/16-bit field limits) plus a seeded sample; thorough: EVERY block size 0..=65536
+    // and every rate 0..=96000 and every multiple of 10 / 1000 up to 655350
+    {
+        use rand::Rng;
+        let mut rng = crate::gen::rng_for(seed, 5150);
+        let mut bss: std::collections::BTreeSet<usize> = std::collections::BTreeSet::new();
+        if thorough {
+            bss.extend(0..=65536usize);
+        } else {
+            bss.extend(0..=300usize);
+            bss.extend((1..=341usize).map(|k| k * 192));
+            bss.extend((1..=113usize).map(|k| k * 576));
+            bss.extend((1..=256usize).map(|k| k * 256));
+            for e in 0..=16u32 {
+                for d in [-1i64, 0, 1] {
+                    bss.insert(((1i64 << e) + d).clamp(0, 65536) as usize);
+                }
+            }
+            bss.extend((0..400).map(|_| rng.gen_range(0..=65536usize)));
+        }
+        for bs in bss {
+            o.classes.insert(format!("header-bs/{}", if bs == 0 { 0 } else { 1 + (bs.ilog2() as usize) }));
+            let desc = format!("FrameHeader::new(block={bs}, Independent(2), bps=16, rate=44100, Frame(7))");
+            o.observe("header", desc, bs.min(70000), 16, 0, json!({"num_hi": 0, "num_lo": 7, "variable": false, "relabelled": false, "rate": 44100}),
+                || FrameHeader::new(bs, ChannelAssignment::Independent(2), 16, 44100, FrameOffset::Frame(7)),
+                |b| parser::frame_header::<nom::error::Error<&[u8]>>(true)(b).ok().map(|(_, h)| dbg_and_bytes(&h)));
+        }
+        let mut rates: std::collections::BTreeSet<usize> = std::collections::BTreeSet::new();
+        if thorough {
+            rates.extend(0..=96000usize);
+            rates.extend((0..=65535usize).map(|k| k * 10));
+            rates.extend((0..=655usize).map(|k| k * 1000));
+        } else {
+            rates.extend(0..=300usize);
+            rates.extend([8000usize, 16000, 22050, 24000, 32000, 44100, 48000, 88200, 96000, 176400, 192000, 352800, 384000]);
+            rates.extend((0..=655usize).map(|k| k * 1000));
+            rates.extend((1..=59usize).map(|k| k * 11025));
+            rates.extend([65534usize, 65535, 65536, 65537, 65540, 65550, 255000, 255001, 255010, 256000, 655340, 655349, 655350]);
+            for e in 0..=19u32 {
+                for d in [-1i64, 0, 1] {
+                    rates.insert(((1i64 << e) + d).max(0) as usize);
+                }
+            }
+            rates.extend((0..300).map(|_| rng.gen_range(0..=655350usize)));
+            rates.extend((0..100).map(|_| rng.gen_range(0..=65535usize) * 10));
+        }
+        for rate in rates {
+            o.classes.insert(format!("header-rate/{}", if rate == 0 { 0 } else { 1 + (rate.ilog2() as usize) }));
+            let desc = format!("FrameHeader::new(block=4096, Independent(2), bps=16, rate={rate}, Frame(7))");
+            o.observe("header", desc, 4096, 16, 0, json!({"num_hi": 0, "num_lo": 7, "variable": false, "relabelled": false, "rate": rate}),
+                || FrameHeader::new(4096, ChannelAssignment::Independent(2), 16, rate, FrameOffset::Frame(7)),
                 |b| parser::frame_header::<nom::error::Error<&[u8]>>(true)(b).ok().map(|(_, h)| dbg_and_bytes(&h)));
         }
     }
